@@ -239,6 +239,8 @@ class Writes:
 
 
 class Interp:
+    paths_used = 0      # paths handed to rules (measured, for the evidence)
+
     def __init__(self, model, resolver, raises, inline=None, max_depth=2,
                  max_paths=6000, fork_raises=True):
         self.m = model
@@ -276,6 +278,7 @@ class Interp:
     def run(self, fi, args=None):
         key = (fi.qual, None if args is None else tuple(sorted(args.items())))
         if key in self._cache:
+            Interp.paths_used += len(self._cache[key])
             return self._cache[key]
         st = State()
         st.env = {}
@@ -307,6 +310,7 @@ class Interp:
         for s2, flow in outs:
             paths.append(self._mk_path(s2, flow))
         self._cache[key] = paths
+        Interp.paths_used += len(paths)
         return paths
 
     def _mk_path(self, st, flow):
